@@ -233,13 +233,14 @@ def predicate_juxtapositions(sql: str, ident_quote='"', backslash=False):
 
 
 def comment_markers(sql: str, ident_quote='"', backslash=False):
-    """Places outside literals and quoted identifiers where the text contains a comment opener (`--` or `/*`): the
+    """Places outside literals and quoted identifiers where the text contains the comment opener `--`: the
     library never writes comments, so one of these is an accident of juxtaposition (x - -1 rendered as x--1) that makes
     the engine ignore the rest of the line."""
     toks = tokens(sql, ident_quote, backslash)
     out = []
     for i in range(len(toks) - 1):
         a, b = toks[i], toks[i + 1]
-        if a[0] == "op" and b[0] == "op" and a[4] == b[3] and (a[1], b[1]) in (("-", "-"), ("/", "*")):
+        # ("/*" is not looked for: the only way to it is a division by a star, which is no expression to begin with)
+        if a[0] == "op" and b[0] == "op" and a[4] == b[3] and (a[1], b[1]) == ("-", "-"):
             out.append(sql[max(0, a[3] - 20):b[4] + 12])
     return out
